@@ -53,6 +53,12 @@ pub const PRELUDE: &[&str] = &[
     "CREATE TABLE c (id INT, pid INT, FOREIGN KEY (pid) REFERENCES p (id) ON DELETE CASCADE ON UPDATE CASCADE)",
     "INSERT INTO p VALUES (1, 0), (2, 0)",
     "INSERT INTO c VALUES (10, 1), (20, 2)",
+    // children whose foreign key has a referential action for one event only (the other one is NO ACTION)
+    "CREATE TABLE cu (id INT, pid INT, FOREIGN KEY (pid) REFERENCES p (id) ON UPDATE CASCADE)",
+    "CREATE TABLE cd (id INT, pid INT, FOREIGN KEY (pid) REFERENCES p (id) ON DELETE SET NULL)",
+    "INSERT INTO p VALUES (3, 0), (4, 0)",
+    "INSERT INTO cu VALUES (30, 3)",
+    "INSERT INTO cd VALUES (40, 4)",
 ];
 
 /// (group, label, sql). The group is the slice the deeper searches are run on; the label names the
@@ -78,6 +84,8 @@ pub const READS: &[(&str, &str, &str)] = &[
     // a table that is written through a foreign-key action of a statement on another table
     ("fk", "fk-child", "SELECT id, pid FROM c"),
     ("fk", "fk-join", "SELECT p.id, c.id FROM p JOIN c ON c.pid = p.id"),
+    ("fk", "fk-child-on-update-only", "SELECT id, pid FROM cu"),
+    ("fk", "fk-child-on-delete-only", "SELECT id, pid FROM cd"),
     // FROM-clause shapes that reference u
     ("from", "scan", "SELECT a, d FROM u"),
     ("from", "star", "SELECT * FROM u"),
@@ -143,6 +151,8 @@ pub const FK_WRITES: &[(&str, &str)] = &[
     ("update-parent-key:p", "UPDATE p SET id = 5 WHERE id = 2"),
     ("insert:c", "INSERT INTO c VALUES (30, 2)"),
     ("delete:c", "DELETE FROM c WHERE id = 10"),
+    ("update-parent-key:p/cu", "UPDATE p SET id = 13 WHERE id = 3"),
+    ("delete-parent:p/cd", "DELETE FROM p WHERE id = 4"),
 ];
 
 /// Extra statements for the adapter driver (its own dispatch decides what each of them does to the cache).
